@@ -198,7 +198,7 @@ def correspondence(ctx, model_ok=True):
     rng = ctx.rng.fork("c14")
     failures = []
     broken = []
-    cases = [gen_case(rng.fork("g%d" % i)) for i in range(6000 if ctx.thorough else 750)]
+    cases = [gen_case(rng.fork("g%d" % i)) for i in range(6000 if ctx.thorough else 5000)]
     if ctx.thorough:
         cases += list(enumerate_cases())
     else:
